@@ -684,6 +684,15 @@ func (r *sysRun) user() {
 
 const grandchildMark = "[grandchild] "
 
+// cmdClass: the first two words of a simulated command line ("EX 6"); its arguments are input text
+func cmdClass(cmd string) string {
+	f := strings.Fields(cmd)
+	if len(f) > 2 {
+		f = f[:2]
+	}
+	return strings.Join(f, " ")
+}
+
 var sysEventHandlers = map[string]func(r *sysRun, ev *sysEvent){}
 
 // exitAudit is evaluated at the instant Run returns (a real process would
@@ -696,7 +705,7 @@ func (r *sysRun) exitAudit() []string {
 			// its own class: fzf did stop the command it had started (the shell) - the one the signal found
 			// running, or one that the rest of the key's action list started afterwards -, what the shell had
 			// started lives on
-			out = append(out, fmt.Sprintf("%sSIGTERM/SIGHUP arrived while the command %q was running in the foreground; fzf killed the shell (pid %d), the shell's own child %d is still running and never killed", grandchildMark, p.Parent.Command, p.Parent.Pid, p.Pid))
+			out = append(out, fmt.Sprintf("%sSIGTERM/SIGHUP arrived while the command %q was running in the foreground; fzf killed the shell (pid %d), the shell's own child %d is still running and never killed", grandchildMark, cmdClass(p.Parent.Command), p.Parent.Pid, p.Pid))
 			continue
 		}
 		out = append(out, fmt.Sprintf("child process %d (%q) still running and never killed", p.Pid, p.Command))
